@@ -14,6 +14,14 @@ const CACHE_SIZE: usize = 1000 * 30;
 
 /// Initialize cache
 pub fn init_cache() -> TxVerificationCache {
+    // verif hook: VERIF_TX_VERIFY_CACHE_SIZE (0 disables the cache: lru never stores with capacity 0)
+    #[cfg(feature = "verif-hooks")]
+    if let Some(size) = std::env::var("VERIF_TX_VERIFY_CACHE_SIZE")
+        .ok()
+        .and_then(|s| s.parse::<usize>().ok())
+    {
+        return lru::LruCache::new(size);
+    }
     lru::LruCache::new(CACHE_SIZE)
 }
 
